@@ -2,7 +2,7 @@
    Proofs.v and followed by Print Assumptions.  Statements are over the regenerated
    Gen/C07Gen.v (align_offset, validate_write_options) and the model in C07/Model.v. *)
 From Coq Require Import ZArith List Bool Lia Permutation.
-From IRV Require Import Base.Exn Gen.C07Gen C07.Model C07.Proofs C07.Names.
+From IRV Require Import Base.Exn Gen.C07Gen C07.Model C07.Proofs C07.Names C07.EndToEnd.
 Import ListNotations.
 Open Scope Z_scope.
 
@@ -116,6 +116,22 @@ Theorem C07_read_back :
   Forall (fun j => slice (write_all f jobs) (fst j) (length (snd j)) = snd j) jobs.
 Proof. exact write_all_read_back. Qed.
 Print Assumptions C07_read_back.
+
+(* End to end: with the offsets the code computes (any options accepted by the validator), after all
+   tensor writes have completed IN ANY ORDER, every initializer's recorded range holds exactly its bytes;
+   and the recorded ranges are the layout of the tensor sizes. *)
+Theorem C07_save_read_back :
+  forall datas al thr order f, opts_ok al thr -> Permutation (jobs datas al thr) order ->
+  Forall (fun j => slice (write_all f order) (fst j) (length (snd j)) = snd j) (jobs datas al thr).
+Proof. exact save_read_back. Qed.
+Print Assumptions C07_save_read_back.
+
+Theorem C07_recorded_ranges_are_layout :
+  forall datas al thr, opts_ok al thr ->
+  map (fun j => (Z.of_nat (fst j), Z.of_nat (length (snd j)))) (jobs datas al thr)
+  = layout (map (fun d => Z.of_nat (length d)) datas) al thr.
+Proof. exact jobs_are_layout. Qed.
+Print Assumptions C07_recorded_ranges_are_layout.
 
 Theorem C07_write_order_independent :
   forall j1 j2 f1 f2, Permutation j1 j2 -> pairwise_disjoint j1 ->
